@@ -120,6 +120,16 @@ func sameScrutinee(v, scr ssa.Value) bool {
 		if v == scr {
 			return true
 		}
+		// a second read of the same string at the same index (go/ssa does not merge them; strings are immutable)
+		if vi, ok := v.(ssa.Instruction); ok {
+			if si, ok := scr.(ssa.Instruction); ok {
+				i1, _, ok1 := strIndex(vi)
+				i2, _, ok2 := strIndex(si)
+				if ok1 && ok2 && i1 == i2 && indexBase(vi) != nil && indexBase(vi) == indexBase(si) {
+					return true
+				}
+			}
+		}
 		switch x := v.(type) {
 		case *ssa.Convert:
 			v = x.X
@@ -668,6 +678,32 @@ func runC03(c *Ctx) {
 		var predStop ivset
 		predOK := false
 		if rv == nil {
+			// a byte loop: the byte read at the loop index; the set for which the index is returned
+			var bv ssa.Value
+			var bin ssa.Instruction
+			allInstrs(lw, func(in ssa.Instruction) {
+				if _, v, ok := strIndex(in); ok && isByteVal(v) && bv == nil {
+					bv, bin = v, in
+				}
+			})
+			if bv != nil {
+				sets := reachSets(lw, bv, bin.Block(), ivFull(0xFF))
+				var stop ivset
+				for b, set := range sets {
+					if ret, ok := b.Instrs[len(b.Instrs)-1].(*ssa.Return); ok {
+						if _, isC := ret.Results[0].(*ssa.Const); !isC {
+							stop = stop.union(set)
+						}
+					}
+				}
+				// bytes >= 0x80 belong to characters that are not white space: they must stop the scan
+				if len(stop.intersectRange(0x80, 0xFF).norm()) > 0 && stop.intersectRange(0x80, 0xFF).eq(ivOf(0x80, 0xFF)) {
+					predStop = stop.intersectRange(0, 0x7F).union(ivOf(0x80, 0x10FFFF))
+					predOK = true
+				}
+			}
+		}
+		if rv == nil && !predOK {
 			allInstrs(lw, func(in ssa.Instruction) {
 				call, isCall := in.(*ssa.Call)
 				if !isCall || !strings.HasSuffix(calleeName(call), ".IndexFunc") || len(call.Call.Args) != 2 {
